@@ -2,22 +2,26 @@
 
 PID = "C06"
 CLAIM = True
-MANIFEST_TEXT = ("Lean 4 theorems (all index lists, all per-index sizes incl. zero and all-zero, every buffer size B >= the "
-                 "largest index, fixed- and variable-size handles, hence both directions) about an executable model of "
-                 "InterfaceTracker/MessageBuffer/PackEntries/UnpackEntries/SetupSend-/SetupRecvRequest and the size "
-                 "pre-exchange: the message rounds concatenate to all items, never split an index and never exceed B; the "
-                 "receiver partitions the stream exactly as the sender did, so the k-th receive index gets exactly the "
-                 "k-th send index's items with the right count; #messages sent = #receives posted (no hang); every "
-                 "interleaving of the per-neighbour small-step machine terminates in the final state. The model is run "
-                 "against the real class under mpirun -np 1..4 (thorough: ..8) on random symmetric interface maps with a "
-                 "recording data handle, PMPI-permuted MPI_Testsome completion orders, a per-case alarm for hangs and an "
-                 "independent delivery oracle.")
-MANIFEST_NOTE = ("Trusted: Lean kernel, the hand-written model's fidelity (differential runs only), OpenMPI (reliable, "
-                 "pairwise FIFO, synchronous-send semantics), harness/mpi_c06.cc + pmpi_sched.cc, g++/ASan/UBSan. The "
-                 "schedule theorem is about the message-level protocol of one directed neighbour relation and their "
-                 "free product; the rank-level sequencing 'size phase before data phase' and busy-wait fairness of "
-                 "MPI_Testsome are argued, not proved. Fixed-size handles must report a size >= 1 (the code asserts it). "
-                 "Requires fixes/C06_zero_sizes_hang.patch (unrepaired code hangs when all sizes towards a neighbour are 0).")
+MANIFEST_TEXT = ("Lean 4 theorems (all index lists incl. repeated indices, all per-index sizes incl. zero and all-zero, every "
+                 "buffer size B >= the largest index, fixed- and variable-size handles, both directions, any number of ranks) "
+                 "about an executable model of InterfaceTracker/MessageBuffer/PackEntries/UnpackEntries/SetupSend-/"
+                 "SetupRecvRequest, the size pre-exchange and setupInterfaceTrackers: the message rounds concatenate to all "
+                 "items, never split an index, are non-empty and never exceed B; the receiver partitions the stream exactly as "
+                 "the sender packed it, so the k-th receive index gets exactly the k-th send index's items with the right "
+                 "count; the size exchange round-trips; #messages sent = #receives posted (no hang; false for the unrepaired "
+                 "code, witness proved); and for the free interleaving of the per-neighbour small-step machines every "
+                 "schedule is finite, every maximal one ends in the final state and all of them produce the same scatter "
+                 "calls. The model is run against the real class under mpirun -np 1..4 (thorough: ..8) on random symmetric "
+                 "interface maps with a recording data handle, PMPI-permuted MPI_Testsome completion orders, a per-case "
+                 "alarm that turns a hang into a reported crash, and an independent delivery oracle.")
+MANIFEST_NOTE = ("Trusted: Lean kernel, the hand-written model's fidelity (differential runs only: scatter calls per source "
+                 "rank, in order, with counts and items), OpenMPI (reliable, pairwise FIFO, synchronous-send semantics), "
+                 "harness/mpi_c06.cc + pmpi_sched.cc, g++/ASan/UBSan. The schedule theorems cover one phase (size exchange / "
+                 "data exchange) of all neighbour relations of all ranks; the rank-level sequencing 'size phase before data "
+                 "phase', the delayed first receive of fixed-size communications and the fairness of the MPI_Testsome "
+                 "busy-wait are argued, not proved. Fixed-size handles must report one size >= 1 (the code asserts it). "
+                 "scatter(index, 0) calls for zero-size indices are not part of the compared behaviour. Needs "
+                 "fixes/C06_zero_sizes_hang.patch: the unrepaired code hangs when all sizes towards a neighbour are 0.")
 TECHNIQUE = "Lean 4 proof over a tracker/buffer/round model + MPI differential correspondence with schedule steering, hang alarm and delivery oracle"
 TRANSLATORS = []
 HARNESS = dict(
@@ -48,8 +52,8 @@ def batches(tier, seed):
         plan = [(1, 120), (2, 160), (3, 160), (4, 140)]
         reps = 1
     else:
-        plan = [(1, 600), (2, 900), (3, 900), (4, 800), (5, 600), (6, 500), (7, 300), (8, 300)]
-        reps = 3
+        plan = [(1, 600), (2, 900), (3, 900), (4, 800), (5, 500), (6, 400), (7, 250), (8, 250)]
+        reps = 2
     for r in range(reps):
         for np, n in plan:
             res.append(dict(args=["--seed", str(seed * 1000 + 17 * np + r), "--cases", str(n), "--tier", tier],
